@@ -510,6 +510,7 @@ def t7(e: Engine, rep: Report):
         asserts = [n for n in g.of_kind('stmt')
                    if isinstance(n.ast, ast.Assert) and any(
                        sc.kind == 'handler' for sc in n.scopes)]
+        fx = e.facts(g)
         n_cls += 1
         if not asserts:
             rep.evaluations += 1
@@ -544,6 +545,8 @@ def t7(e: Engine, rep: Report):
                             unset = isinstance(n.ast.value, ast.Constant) \
                                 and n.ast.value.value is None
                 if n.kind == 'test' and label in ('T', 'F'):
+                    if fx.infeasible(n, label):
+                        return None
                     t = n.ast
                     if path_of(t, n.frame) == pth:
                         if label == 'T' and unset:
